@@ -23,7 +23,8 @@ CONSTANTS
   PairCtors,     \* constructors that receive feature sets of size >= 2
   PairFeats,     \* features that may occur in sets of size >= 2
   FocusKinds,    \* subset of {"ctor", "sect"}: what may be the focus
-  CtxMode        \* "one": a context determined by the focus; "all": every context
+  CtxMode,       \* "one": a context determined by the focus; "all": every context
+  PreSaves       \* subset of BOOLEAN: build with / without an intermediate serialisation
 
 VARIABLES st, hist, g
 vars == <<st, hist, g>>
@@ -129,9 +130,13 @@ GAdd == /\ g.stage = "feat" /\ Cardinality(g.fs) < MaxF
              /\ AllowedSet(g.c, g.fs \cup {f})
              /\ g' = [g EXCEPT !.fs = @ \cup {f}]
         /\ UNCHANGED <<st, hist>>
+\* ps ("pre-saved"): the document is serialised once, result discarded, after each constructor call and before the
+\* setters are applied to the new element (and before section settings applied last).  Serialising does not change the
+\* document (Act_SavePure), so Model(b) does not depend on ps; an implementation that remembers what it serialised does.
+WithPs(b, p) == [op |-> b.op, els |-> b.els, sect |-> b.sect, se |-> b.se, ps |-> p]
 GClose == /\ g.stage = "feat" /\ Cardinality(g.fs) >= MinF
-          /\ \E k \in CtxChoices(g.c, g.fs) :
-               /\ hist' = <<GenBuild(g.c, g.fs, k)>>
+          /\ \E k \in CtxChoices(g.c, g.fs), p \in PreSaves :
+               /\ hist' = <<WithPs(GenBuild(g.c, g.fs, k), p)>>
                /\ g' = [stage |-> "run"]
           /\ UNCHANGED st
 GRun == /\ g.stage = "run" /\ Len(hist) < 1 + 2 * Cycles
